@@ -454,3 +454,8 @@ def run(ck, prog, ctx):
                 return {tuple(e[1] for e in a[5] if e[0] == "f")[-1:] for a in at if a[0] == "call" and a[1].endswith("::next")}
             ok = comp(pa) == {("1",)} and comp(ca) == {("0",)}
             ck.ob("ROLE", "obo/link-order", ok, "connections (child, parent) are linked as add_parent(%s, %s)" % ("parent" if comp(pa) == {("1",)} else "?", "child" if comp(ca) == {("0",)} else "?"), where=ro.where(t.line))
+
+    # ---- constructors: a field named like a parameter is initialised from that parameter, not from a sibling of the same type
+    ck.rule("CTOR", "in a struct literal, the field `f` of a function with a parameter `f` derives from that parameter (DESIGN 3.9)")
+    from engines import check_ctors
+    check_ctors(ck, "CTOR", prog, r"^src/parser\.rs$", floor=1)
